@@ -57,3 +57,17 @@ Example C09_shape_example :
   validate_proof_shape (mkStarkDesc 2 1 3 1 true false 4 2 0 0)
                        (mkProofShape 1 (Some 4) 4 (Some 4) (Some 4) 3 3 (Some 4) (Some 4) None (Some 2)) = true.
 Proof. reflexivity. Qed.
+
+(* with the quotient openings the shape rules demand (quotient_degree_factor * num_challenges of them), the loop
+   of verify_stark_proof_with_challenges compares EVERY challenge's accumulator with a full chunk: none of the
+   num_challenges identities is skipped *)
+From Verif Require Import Model.Stark Proofs.Stark Base.Poly.
+Theorem C09_every_identity_checked :
+  forall {F : Type} {FO : FieldOps F} {FL : FieldLaws F} (log_n qdf nch : nat) (zeta : F) (van q : list F),
+    qdf <> 0 -> length q = qdf * nch -> length van = nch ->
+    quotient_check log_n qdf zeta van (Some q) = Some true ->
+    exists cks, chunks qdf q = Some cks /\ length cks = nch /\
+      forall j, j < nch ->
+        exists ck v, nth_error cks j = Some ck /\ length ck = qdf /\ nth_error van j = Some v /\
+          v = ((fpow zeta (2 ^ log_n) - 1) * peval ck (fpow zeta (2 ^ log_n)))%F.
+Proof. exact (@every_identity_checked). Qed.
